@@ -30,12 +30,23 @@ func init() {
 		file := fset.AddFile(e.Name(), -1, len(src))
 		var sc scanner.Scanner
 		sc.Init(file, src, nil, 0)
+		prev, prev2 := "", ""
 		for {
 			_, tok, lit := sc.Scan()
 			if tok == token.EOF {
 				break
 			}
+			p1, p2 := prev, prev2
+			prev2, prev = prev, lit
+			if tok == token.COLON {
+				prev = ":"
+			}
 			if tok != token.STRING {
+				continue
+			}
+			// the source fragments of the mutant tables (Old: "...", New: "...") quote the analysed tree; they do not
+			// name functions the rules look up
+			if p1 == ":" && (p2 == "Old" || p2 == "New") {
 				continue
 			}
 			s, err := strconv.Unquote(lit)
